@@ -11,6 +11,9 @@ TLC is the judge everywhere:
       the driver completes them with self-identifying cell contents and builds real tables from them.
   M3  Trace_Table: every (recipe, W, projected render) record of TLC-generated and seeded random tables, and real
       ratio calls at table-like magnitudes.
+  The column-width solver as a whole (specs/TableSolver.tla: transcription of Table._calculate_column_widths, the two open
+  findings as smallest counter-examples of the design, the repaired design, conformance of the transcription with the real
+  method) is drivers/c07_solver.py, run in a thread next to the table part.
 
 Python only generates, builds, renders and projects lexically.  Every cell is written in an alphabet of its own
 (cell k = rowid * 6 + column: U+0100+3k.., U+4E00+k, U+1F600+k, U+0300+k), so the row and column of every output
@@ -939,11 +942,16 @@ def run(chk: Check):
     chk.rule = ("ratio arithmetic: every instance of the grid (totals 0..14, slots/ratios/bounds per tier, see notes) is a model state AND "
                 "a call of the real function; tables: option combinations enumerated by TLC (MC_Table) plus seeded random recipes "
                 "(1..6 columns, 0..8 rows, every table / column option of the quantifier, multi-line / wide / zero-width / nested "
-                "cells), each rendered at widths from the structural minimum to 200.  evaluation = one (recipe, W) record or one "
-                "ratio call; non-trivial = in scope (W >= TableMin, options not contradictory)")
+                "cells), each rendered at widths from the structural minimum to 200; width solver: every instance MC_TableSolver emits "
+                "(<=3 columns, content 1..2 / <=6, paddings incl. pad_edge / collapse_padding, ratios, min_width, per tier see notes) is a "
+                "call of the real Table._calculate_column_widths at 5..7 available widths from the structural minimum, compared by TLC "
+                "with the transcription (DRIFT only).  evaluation = one (recipe, W) record, one ratio call or one solver call; "
+                "non-trivial = in scope (W >= TableMin, options not contradictory)")
     chk.trusted = ["drivers/c07.py:project (segments -> lines -> runs: a character is attributed by the alphabet it belongs to, a blank / "
                    "box character by the colour tag of its segment; widths by rich.cells of the tree under test - C13's subject)",
-                   "drivers/c07.py:build (recipe -> constructor calls)", "drivers/c07.py:_ratio_grid (enumeration order; checked by MC_Ratio!Aligned)"]
+                   "drivers/c07.py:build (recipe -> constructor calls)", "drivers/c07.py:_ratio_grid (enumeration order; checked by MC_Ratio!Aligned)",
+                   "drivers/c07_solver.py:real_widths (instance -> Table(box=None) with one row of Text cells of the given content widths; "
+                   "the structural minimum TLC printed is recomputed by Trace_TableSolver)"]
     chk.assumptions = ["Console(color_system=None, legacy_windows=False, utf-8)", "style tags (border_style, column styles, title/caption style) do not influence layout",
                        "structural minimum and scope as documented in specs/Table.tla; title / caption lines are not body lines",
                        "Table.width given: exact body width is not demanded (DRIFT note only)"]
@@ -970,17 +978,22 @@ def run(chk: Check):
             chk.reject(table_signature(clause, case["recipe"], case["W"]), vs[0], case)
         return
 
-    # M1 (ratio) in the background
-    ratio_result = {}
+    # M1 (ratio) and the solver part (design level + conformance of the transcription) in the background
+    from drivers import c07_solver
+    ratio_result, solver_result = {}, {}
     th = threading.Thread(target=background_m1, args=(chk, ratio_result))
+    th2 = threading.Thread(target=c07_solver.background, args=(chk, solver_result))
     th.start()
+    th2.start()
     try:
         table_part(chk)
     finally:
         th.join()
-    chk.mark("M1 ratio + table relation (overlapped, remainder)")
+        th2.join()
+    chk.mark("M1 ratio + table relation + solver part (overlapped, remainder)")
     if "error" in ratio_result:
         raise ratio_result["error"]
+    c07_solver.account(chk, solver_result)
     for r in ratio_result.get("tlc", []) + [ratio_result["table_m1"]]:
         chk.add_tlc(r, "M1")
     chk.notes["m1_table"] = ratio_result["table_m1_note"]
